@@ -4,7 +4,7 @@
    as a stable insertion sort, the partTriInds loops, the table construction, the renumbering
    loop; GetSegmentation; NiShape::ReorderTriangles) and the re-fit of Geom/GeomModel.v. *)
 From NiflyVerif Require Import Res UtilModel UtilSpec EraseProofs GeomModel SegModel GeomBase GeomSpec
-  SegSort SegProofs RefitProofs.
+  SegSort SegProofs RefitProofs RefitLabels.
 From Coq Require Import Sorted Permutation.
 Local Open Scope N_scope.
 
@@ -58,6 +58,8 @@ Theorem C17_get_set_labels : forall b inf labels,
     bs_nt b' = nt /\ sn_nprim (bs_segn b') = nt /\ sn_nseg (bs_segn b') = vlen (sn_segs (bs_segn b')) /\
     bs_tris b' = map (fun i => nth (N.to_nat i) (bs_tris b) (0, 0, 0)) (map fst sorted) /\
     segs_tile 0 (sn_segs (bs_segn b')) nt /\
+    sn_segs (bs_segn b') = segs_spec (cntlt (map snd sorted)) (inf_segs inf) 0 /\
+    sn_recs (bs_segn b') = recs_spec (inf_segs inf) 0 /\
     exists inf', get_segmentation b' = Ok (inf', map snd sorted) /\
                  inf_shape (inf_segs inf') = shape_spec (inf_segs inf) 0.
 Proof. exact set_get_labels. Qed.
@@ -95,19 +97,20 @@ Theorem C17_refit_function : forall b idx,
 Proof. exact bs_sits_delete_ok. Qed.
 Print Assumptions C17_refit_function.
 
-(* the range facts that survive a vertex deletion: starting from tables that tile the triangle
-   list as SetSegmentation leaves them ([segs_tile]), the re-fitted tables are contiguous, ordered,
-   start at 0, end at the new triangle count (so the sizes sum to it), numPrimitives is the new
-   triangle count, and every segment's sub-segments are contiguous and inside the segment
-   ([segs_tile_w]) - they start at the segment's START, not after the segment's own triangles:
-   that is exactly the defect refuted below. *)
+(* the range facts survive a vertex deletion: starting from tables that tile the triangle list as
+   SetSegmentation leaves them ([segs_tile]), the re-fitted tables tile the new triangle list in
+   the same way: segments contiguous, ordered, from 0 to the new triangle count (so the sizes sum
+   to it), numPrimitives is the new triangle count, and in every segment the triangles it owns
+   itself come first, then its sub-segments, contiguous, ending where the segment ends. (Before the
+   repair of C17-refit-first-subsegment-start the sub-segments were laid out from the segment's
+   start and only a weaker statement held.) *)
 Theorem C17_refit_keeps_ranges : forall b idx,
   sorted_lt idx -> bs_kind b = BSSubIndex -> bs_core_wf b = true -> seg_tables_wf b = true ->
   segs_tile 0 (sn_segs (bs_segn b)) (bs_nt b) -> sn_nprim (bs_segn b) = bs_nt b -> 3 * bs_nt b < 4294967296 ->
   exists b', bs_delete b idx = Ok b' /\
     bs_tris b' = tris_spec idx (bs_tris b) /\ bs_nt b' = vlen (bs_tris b') /\
     sn_nprim (bs_segn b') = bs_nt b' /\
-    segs_tile_w 0 (sn_segs (bs_segn b')) (bs_nt b').
+    segs_tile 0 (sn_segs (bs_segn b')) (bs_nt b').
 Proof. exact bs_sits_delete_ranges. Qed.
 Print Assumptions C17_refit_keeps_ranges.
 
@@ -119,11 +122,46 @@ Theorem C17_shrink_counts : forall lo D n,
 Proof. exact shrink_count_ok. Qed.
 Print Assumptions C17_shrink_counts.
 
-(* ---- the re-fit after vertex deletion does NOT keep the labels (DESIGN section 7, #9a).
-   Witness: six triangles on 18 vertices, info "segment 0 with sub-segments 1 and 2; segment 3",
+(* ---- every surviving triangle keeps its label (holds since the repair of
+   C17-refit-first-subsegment-start). For a sub-index shape whose segment tables are the ones
+   SetSegmentation writes for a sorted key list K (one key per triangle): DeleteVertsForShape's
+   branch keeps the untouched triangles in order, and GetSegmentation then returns K with exactly
+   the entries of the dropped triangles erased, and the same info ids. *)
+Theorem C17_refit_keeps_labels : forall b idx (K : list Z) (shape : list seginfo),
+  sorted_lt idx -> bs_kind b = BSSubIndex -> bs_core_wf b = true -> bs_ssen b = vlen (bs_sse b) ->
+  StronglySorted Z.le K -> Forall (fun k => (0 <= k < Z.of_nat (ids_total shape))%Z) K ->
+  vlen K = bs_nt b -> 3 * bs_nt b < 4294967296 ->
+  sn_segs (bs_segn b) = segs_spec (cntlt K) shape 0 -> sn_nseg (bs_segn b) = vlen (sn_segs (bs_segn b)) ->
+  N.of_nat (ids_total shape) <= vlen (sn_recs (bs_segn b)) ->
+  exists b' inf', bs_delete b idx = Ok b' /\
+    bs_tris b' = tris_spec idx (bs_tris b) /\
+    get_segmentation b' = Ok (inf', erase_spec K (del_pos idx (bs_tris b))) /\
+    inf_shape (inf_segs inf') = shape_spec shape 0.
+Proof. exact refit_keeps_labels. Qed.
+Print Assumptions C17_refit_keeps_labels.
+
+(* the property's history in one statement: set a valid labelling, delete any vertex set, read the
+   labelling back = the labels read before the deletion minus the dropped triangles *)
+Theorem C17_set_then_delete_keeps_labels : forall b inf labels idx,
+  let ids := inf_ids (inf_segs inf) in
+  let nt := bs_nt b in
+  NoDup ids -> Forall (fun i => (0 <= i)%Z) ids -> valid_labels ids labels ->
+  (labels <> [] -> inf_segs inf <> []) ->
+  vlen labels = nt -> 3 * nt < 4294967296 ->
+  (Z.of_nat (ids_total (inf_segs inf)) < 2147483648)%Z ->
+  bs_kind b = BSSubIndex -> bs_core_wf b = true -> bs_ssen b = vlen (bs_sse b) -> sorted_lt idx ->
+  exists b1 b2 inf1 inf2 L,
+    set_segmentation b inf labels = Ok b1 /\ get_segmentation b1 = Ok (inf1, L) /\
+    bs_delete b1 idx = Ok b2 /\ bs_tris b2 = tris_spec idx (bs_tris b1) /\
+    get_segmentation b2 = Ok (inf2, erase_spec L (del_pos idx (bs_tris b1))) /\
+    inf_shape (inf_segs inf2) = inf_shape (inf_segs inf1).
+Proof. exact set_then_delete_keeps_labels. Qed.
+Print Assumptions C17_set_then_delete_keeps_labels.
+
+(* ---- the former counter-example (DESIGN section 7, #9a; finding C17-refit-first-subsegment-start,
+   repaired): six triangles on 18 vertices, info "segment 0 with sub-segments 1 and 2; segment 3",
    labels 0 0 1 2 2 3; deleting vertex 15 (the last triangle) leaves the five other triangles in
-   place but their labels read back as 1 2 2 0 0: the first sub-segment's start was reset to the
-   segment's start although the segment itself owns the two leading triangles. *)
+   place and now they keep their labels 0 0 1 2 2 (the unrepaired re-fit gave 1 2 2 0 0). *)
 Definition C17_w_tris : list tri := [(0,1,2); (3,4,5); (6,7,8); (9,10,11); (12,13,14); (15,16,17)].
 Definition C17_w_shape : bsshape :=
   mkBs BSSubIndex 18 (nseq 18) 6 C17_w_tris [] [] 0 0 0 0
@@ -135,24 +173,21 @@ Definition C17_w_labels : list Z := [0; 0; 1; 2; 2; 3]%Z.
 Definition labels_of (r : res (seginf * list Z)) : list Z :=
   match r with Ok x => snd x | _ => [] end.
 
-Theorem C17_refit_keeps_labels_refuted :
+Example C17_refit_keeps_labels_on_witness :
   exists b b' : bsshape,
     set_segmentation C17_w_shape C17_w_inf C17_w_labels = Ok b /\
     labels_of (get_segmentation b) = [0; 0; 1; 2; 2; 3]%Z /\
     bs_delete b [15] = Ok b' /\
     bs_tris b' = firstn 5 (bs_tris b) /\
-    labels_of (get_segmentation b') = [1; 2; 2; 0; 0]%Z /\
-    labels_of (get_segmentation b') <> firstn 5 (labels_of (get_segmentation b)).
+    labels_of (get_segmentation b') = firstn 5 (labels_of (get_segmentation b)).
 Proof.
   eexists. eexists.
   split; [vm_compute; reflexivity|].
   split; [vm_compute; reflexivity|].
   split; [vm_compute; reflexivity|].
   split; [vm_compute; reflexivity|].
-  split; [vm_compute; reflexivity|].
-  vm_compute. discriminate.
+  vm_compute. reflexivity.
 Qed.
-Print Assumptions C17_refit_keeps_labels_refuted.
 
 (* ---- non-vacuity of the hypotheses of C17_get_set_labels: the witness above satisfies them *)
 Example C17_example_hypotheses :
